@@ -45,6 +45,7 @@ type c10Obs struct {
 	states   string   // R's reported state for X at the moment after the intruder's message settled
 	panicked string
 	deadlock bool
+	events   int
 }
 
 func c10Run(cs c10Case) *c10Obs {
@@ -118,6 +119,7 @@ func c10Run(cs c10Case) *c10Obs {
 				any := false
 				for _, e := range evs {
 					if e.Enabled() {
+						o.events++
 						e.Do()
 						vsched.Quiesce()
 						any = true
@@ -281,6 +283,7 @@ func runC10(c *core.Ctx) {
 					c.Res.Evaluations++
 					c.Res.Traces++
 					c.Res.States++
+					c.Res.Transitions += int64(o.events)
 					c.Class(fmt.Sprintf("%s state-after=%s", st, o.states))
 					c.Sample(cs.String())
 					if sig != "" {
